@@ -1,5 +1,6 @@
 //! Conformance harness binding spec/*.tla to the real `delaunay` crate.
 #![allow(clippy::all)]
+pub mod caches;
 pub mod drivers;
 pub mod points;
 pub mod ops;
